@@ -14,7 +14,7 @@ slicing semantics (numpy), remote file handling. Also: cast_value() without an e
 import ast
 
 from ..effects import Program
-from ..model import AnalysisError, dotted_name, methods, norm, walk_no_nested
+from ..model import qualname, AnalysisError, dotted_name, methods, norm, walk_no_nested
 from ..truthy import bare_truth_uses
 from . import C13, C16
 from . import common as K
@@ -33,6 +33,8 @@ ENV = "src/scinumtools/dip/environment.py"
 
 
 def r1_queries_copy(ctx):
+    from . import C14 as _C14
+    _C14.r3_none_vs_falsy(ctx)      # a referenced value of 0, false or '' is a value: no bare truth test in the injection path (shared with C14.R3)
     prog = Program(ctx.repo, [LN, ND + "node.py"], hints={("NodeList.query", "query"): {"num"}, ("NodeList.__getitem__", "key"): {"num"}},
                    field_hints={("NodeList", "nodes"): "list<Node>"})
     prog.solve()
@@ -108,6 +110,7 @@ def r2_base_untouched(ctx):
 
 
 def r3_count(ctx):
+    _injection_target(ctx)
     fn = ctx.fn(ENV, "Environment.request")
     blk = [i for i in fn.body if isinstance(i, ast.If) and norm(i.test) == "count"]
     if len(blk) != 1:
@@ -283,6 +286,31 @@ def r6_rerooting(ctx):
     ctx.check(all(not any(k.arg == "count" for k in c.keywords) for c in calls), ND + "node_import.py", "ImportNode.parse",
               "an import accepts any number of selected nodes", detail=[norm(c) for c in calls])
     _relative_names(ctx)
+
+
+def _injection_target(ctx):
+    """`$unit name = {?ref}` / `$source name = {?ref}` parse their right-hand side with a sub-parser; the reference is
+    in that sub-parser, so it is the object whose value has to be injected.  inject_value(env) alone works on the
+    directive node itself, finds no reference there and returns without a word."""
+    n = 0
+    for mod in ctx.repo.all_modules("src/scinumtools/dip/nodes"):
+        for fn in [x for x in ast.walk(mod.tree) if isinstance(x, (ast.FunctionDef, ast.AsyncFunctionDef))]:
+            for i in [x for x in ast.walk(fn) if isinstance(x, ast.If)]:
+                t = i.test
+                if not (isinstance(t, ast.Attribute) and t.attr == "value_ref" and isinstance(t.value, ast.Name) and t.value.id != "self"):
+                    continue
+                holder = t.value.id
+                for c in [x for st in i.body for x in ast.walk(st) if isinstance(x, ast.Call) and isinstance(x.func, ast.Attribute) and x.func.attr == "inject_value"]:
+                    n += 1
+                    passed = [norm(a) for a in c.args[1:]] + [norm(k.value) for k in c.keywords if k.arg == "node"]
+                    what = "the object that holds the reference is the one whose value is injected"
+                    if holder in passed:
+                        ctx.holds(mod.relpath, qualname(fn), what)
+                    elif not passed:
+                        ctx.violated(mod.relpath, qualname(fn), what, detail=f"{norm(c)} under `if {holder}.value_ref`", expected=f"{norm(c.func)}(env, {holder})")
+                    else:
+                        ctx.form(False, mod.relpath, qualname(fn), what, detail=norm(c))
+    ctx.floor("injections into a sub-parser", n, 2)
 
 
 def _relative_names(ctx):
